@@ -152,6 +152,52 @@ def dtype_stream(ctx):
             ctx.count('dtype-stream')
 
 
+def bigbatch_stream(ctx):
+    """batches of several hundred samples (beyond any internal chunk size, not a multiple of a power of two): the factors
+    are second moments over ALL rows, each row weighted equally"""
+    from kfac.preconditioner import KFACPreconditioner
+    rng = ctx.rng
+    for _ in range(ctx.budget(6, 40)):
+        B = rng.choice([257, 300, 513, 700, 1025])
+        conv = rng.random() < 0.6
+        torch.manual_seed(rng.randrange(10**6))
+        case = {'batch': B, 'layer': 'conv' if conv else 'linear'}
+        try:
+            if conv:
+                m = torch.nn.Sequential(torch.nn.Conv2d(1, 2, 2, bias=True)).double()
+                x = torch.randn(B, 1, 3, 3, dtype=torch.float64) * (1 + torch.arange(B, dtype=torch.float64).view(-1, 1, 1, 1) / B)
+            else:
+                m = torch.nn.Sequential(torch.nn.Linear(3, 2)).double()
+                x = torch.randn(B, 3, dtype=torch.float64) * (1 + torch.arange(B, dtype=torch.float64).view(-1, 1) / B)
+            p = KFACPreconditioner(m, factor_decay=0.5, kl_clip=None)
+            y = m(x)
+            y.retain_grad()
+            y.pow(2).mean().backward()
+            p.step()
+            sd = p.state_dict()['layers']['0']
+            if conv:
+                cols = torch.nn.functional.unfold(x, (2, 2)).transpose(1, 2).reshape(-1, 4)     # (B*4, 4)
+                a = torch.cat([cols, torch.ones(cols.shape[0], 1, dtype=torch.float64)], 1) / 4.0     # spatial normalisation
+                g = y.grad.permute(0, 2, 3, 1).reshape(-1, 2) / 4.0 * 1.0
+                g = y.grad.permute(0, 2, 3, 1).reshape(-1, 2)
+                wantA = 0.5 * torch.eye(5, dtype=torch.float64) + 0.5 * (a.t() @ a / a.shape[0])
+                eG = 0.0
+            else:
+                a = torch.cat([x, torch.ones(B, 1, dtype=torch.float64)], 1)
+                g = y.grad
+                wantA = 0.5 * torch.eye(4, dtype=torch.float64) + 0.5 * (a.t() @ a / B)
+                wantG = 0.5 * torch.eye(2, dtype=torch.float64) + 0.5 * (g.t() @ g / B)
+                eG = kfacsim.relerr(sd['G'].double(), wantG)
+            eA = kfacsim.relerr(sd['A'].double(), wantA)
+            if eA > 1e-9 or eG > 1e-9:
+                ctx.fail(f'batch of {B}: factor {"A" if eA > 1e-9 else "G"} is not the equally weighted second moment over all rows '
+                         f'(relerr A {eA:.2e}, G {eG:.2e})', case, 'bigbatch-factor')
+        except Exception as e:  # noqa: BLE001
+            ctx.fail(f'large batch raised {type(e).__name__}: {e}', case, 'bigbatch-raised')
+        ctx.evaluations += 1
+        ctx.count('bigbatch')
+
+
 def amp_stream(ctx):
     """the mixed-precision case loss scaling exists for: a half-precision model whose (scaled) output gradients are float16,
     factors kept in float32: G is the second moment of g/scale computed in the FACTOR dtype (small true gradients that
@@ -322,6 +368,7 @@ def run(ctx):
     half_stream(ctx)
     nd_stream(ctx)
     amp_stream(ctx)
+    bigbatch_stream(ctx)
 
 
 def search(ctx):
